@@ -226,6 +226,7 @@ struct SClient {
         std::vector<uint8_t> key, out_stream, ref_out, ref_tag, in_stream;
         int share_with = -1;
         int keyexp_fam = 0;
+        int pre_fam = 0; // family whose precompute filled the key data (may differ from fam among sse / avx_gen2 / avx_gen4)
         std::vector<uint8_t> dec_sched; // decryption schedule (needles)
 };
 
@@ -818,7 +819,7 @@ struct StreamSim : Sim {
                 if (c.api) {
                         SlotGuard sg;
                         sg.set(S.d_keyexp[c.ks], S.keyexp[c.ks][c.keyexp_fam]);
-                        sg.set(S.d_precomp[c.ks], S.precomp[c.ks][c.fam]);
+                        sg.set(S.d_precomp[c.ks], S.precomp[c.ks][c.pre_fam]);
                         // needles: raw key only (schedule not known before the call)
                         e.secrets.clear();
                         e.secrets.add_range(c.key.data(), c.key.size(), "the raw key");
@@ -847,7 +848,7 @@ struct StreamSim : Sim {
                         e.secrets.add_range(c.key.data(), c.key.size(), "the raw key");
                         e.secrets.add_range(c.key_data, 16 * (c.ks ? 15 : 11), "an encryption round key");
                         e.scan_secrets = true;
-                        e.call(strfmt("_aes_gcm_precomp_%d_%s", bits, gcm_fams[c.fam]).c_str(), S.precomp[c.ks][c.fam], { U(c.key_data) });
+                        e.call(strfmt("_aes_gcm_precomp_%d_%s", bits, gcm_fams[c.pre_fam]).c_str(), S.precomp[c.ks][c.pre_fam], { U(c.key_data) });
                 }
                 e.check_buf(key, "gcm pre");
                 e.check_buf(c.key_data, "gcm pre");
@@ -1189,6 +1190,13 @@ struct StreamSim : Sim {
                                         c.tag_len = 16;
                                 c.aad_len = (size_t) std::max<int64_t>(0, p.get((k + "aadlen").c_str()));
                                 c.keyexp_fam = (int) (p.get((k + "keyexp").c_str()) & 1);
+                                // key data may be prepared by one family and used by another ("to allow users to switch cpu architectures between
+                                // calls of pre, init, update, and finalize", gcm_avx_gen4.asm): among the three families that share the layout
+                                c.pre_fam = c.fam;
+                                if (c.fam < 3 && (mix64(p.seed, 0x9ef0 + (uint64_t) i) & 3) == 0) {
+                                        c.pre_fam = (c.fam + 1 + (int) ((mix64(p.seed, 0x9ef1 + (uint64_t) i) >> 8) % 2)) % 3;
+                                        r.cov.hit("probe_gcm_key_data_prepared_by_another_family");
+                                }
                                 c.share_with = -1;
                                 if (p.get((k + "share").c_str()))
                                         for (int j = i - 1; j >= 0; j--)
